@@ -134,6 +134,23 @@ def once(ctx, case, second=False):
         for i in (0, 1):
             gap = inner[i] - outer[i]
             stable[i] = gap * gap * seglen2 <= (STABLE * tol) ** 2
+        # The gap saturates at the rectangle's own size, so for a rectangle only a few thousand tolerances wide it
+        # cannot see a grazing crossing.  Second criterion, from the angles themselves: a boundary line the segment
+        # meets at a sine below 1/STABLE moves its crossing by more than STABLE x tol when the line moves by tol;
+        # if such a boundary is - or after that move could be - the one that limits this end, the end is unstable.
+        d = (q[0] - p[0], q[1] - p[1])
+        lo = (fxmin + sx, fymin + sy)
+        hi = (fxmax - sx, fymax - sy)
+        for k in (0, 1):
+            if d[k] == 0 or d[k] * d[k] * STABLE * STABLE >= seglen2:
+                continue                                    # parallel (never crosses) or crossed at a fair angle
+            ta, tb = (lo[k] - p[k]) / d[k], (hi[k] - p[k]) / d[k]
+            enter, leave = min(ta, tb), max(ta, tb)
+            slack = tol / abs(d[k])
+            if enter + slack >= inner[0]:
+                stable[0] = False
+            if leave - slack <= inner[1]:
+                stable[1] = False
     # Acceptance is demanded only when some part of the segment is inside by MORE than the tolerance, which needs a
     # rectangle at least 2 tol thick on both axes.  A zero-area rectangle (a line or a point) can hold nothing "by
     # more than the tolerance", so the statement lets either answer stand there: the unchanged code rejects a
